@@ -29,7 +29,7 @@ META={
    "ALL token sequences up to 6 (quick) / 7 (thorough) tokens over a 16-token JSON alphabet, whole and truncated modes, through Detect and the JSON signature check directly, plus mutated valid documents; a JSON-family verdict must imply Complete (whole) / not Fail (prefix) per the reference recogniser."+HELD+" exhaustive for the stated alphabet and length only.",
    "Trusted: oracle/refjson.go (relaxed grammar written from the statement; self-checked against encoding/json.Valid on every case)."),
  "C10":M("exploration","C10","structure-built JSON objects with the verdict computed on the member list, detected whole and at every limit keeping the deciding member",
-   "Objects are built as member lists (deciders for geojson/har/gltf in every accepted form, look-alikes, nested re-use of the query keys, arrays, duplicates), all permutations for <= 5 members, 6 whitespace layouts incl. CRLF, whole and truncated at every limit from the end of the deciding value."+HELD,
+   "Objects are built as member lists (deciders for geojson/har/gltf in every accepted form, look-alikes, nested re-use of the query keys, arrays, duplicates), all permutations for <= 5 members, 10 whitespace layouts incl. CRLF and white space before the opening brace, siblings nested 100-300 deep (also inside log / asset in front of the deciding key), whole and truncated at every limit from the end of the deciding value."+HELD,
    "Trusted: the verdict function written from the statement; deciding keys/values spelled literally."),
  "C11":M("exploration","C11","bounded-exhaustive byte-class enumeration against an explicit UTF-8 prefix validator and the statement's three rules",
    "ALL strings up to length 4 over a 27-symbol byte-class alphabet through Detect (whole and cut), up to length 5/6 through charset.FromPlain, real UTF-8/Latin-1/Windows-1252 paragraphs at every limit and start offset, BOMs."+HELD+" exhaustive for the stated alphabet and lengths only.",
